@@ -445,7 +445,7 @@ pub fn run_program(prog: Program, opts: &Opts, plan: noise::Plan) -> RunResult {
         if outcome != Outcome::Completed { break; }
         // the panic scenarios only make sense once the injected panic has really happened (a try_sync that found the object busy
         // does not run its closure): otherwise the run ends here and counts as trivial
-        if ctx.prog.panics && ctx.expected_panic_seen.load(Ordering::SeqCst) == 0 { break; }
+        if ctx.prog.profile == "C15" && ctx.prog.panics && ctx.expected_panic_seen.load(Ordering::SeqCst) == 0 { break; }
         if ph.wait_pool_exit {
             // "once the panic has finished unwinding": every pool thread that ran a panicking body has exited
             let need = ctx.prog.ops.iter().enumerate().filter(|(i, _)| ctx.recs[*i].outcome.load(ORD) == 5 && ctx.recs[*i].runner.load(ORD) == 1).count();
@@ -517,7 +517,7 @@ pub fn run_program(prog: Program, opts: &Opts, plan: noise::Plan) -> RunResult {
                 Wait::Quiescent(s) => {
                     outcome = Outcome::Stuck; stuck_snap = Some(s);
                     let inside = ph.occupy.iter().filter(|h| ctx.holds[**h].inside.load(Ordering::SeqCst) >= 1).count();
-                    let prop = if ctx.prog.panics { "C15" } else { "C10" };
+                    let prop = if ctx.prog.profile == "C15" { "C15" } else { "C10" };
                     if inside < ph.occupy.len() || !ph.free_must_complete {
                         ctx.sink.report(prop, "pool_cannot_hold_its_maximum_of_blocked_bodies", format!("capacity:{}of{}:max{}", inside, ph.occupy.len(), cur_max),
                             format!("phase '{}': {} bodies were scheduled on {} different objects with pool maximum {}, but only {} ever started; all threads quiet", ph.name, ph.occupy.len(), ph.occupy.len(), cur_max, inside));
@@ -527,6 +527,16 @@ pub fn run_program(prog: Program, opts: &Opts, plan: noise::Plan) -> RunResult {
                     }
                 }
                 Wait::TimedOut => outcome = Outcome::Inconclusive("watchdog in capacity probe".into()),
+            }
+            if let (Some(d), true) = (ph.dying_op, outcome == Outcome::Completed) {
+                // the panicking job has run and its thread has left the process; nothing has called the scheduler since
+                match wait_until(native, watchdog, || ctx.recs[d].outcome.load(ORD) == 5 && dying_threads_gone()) {
+                    Wait::Done => {}
+                    Wait::Quiescent(s) => { outcome = Outcome::Stuck; stuck_snap = Some(s);
+                        ctx.sink.report("C10", "independent_object_made_no_progress_while_others_blocked", format!("c10_stall:pool{}:held{}:{}", cur_max, ph.occupy.len(), ph.name),
+                            format!("phase '{}': the job on the free object never ran although the pool maximum {} exceeds the {} blocked bodies", ph.name, cur_max, ph.occupy.len())); }
+                    Wait::TimedOut => outcome = Outcome::Inconclusive("watchdog waiting for the panicking job".into()),
+                }
             }
             if let (Some(lower), true) = (ph.lower_while_busy, outcome == Outcome::Completed) {
                 // lower the maximum and despawn while the pool threads are inside blocked bodies; then let the bodies go on
@@ -576,7 +586,8 @@ pub fn run_program(prog: Program, opts: &Opts, plan: noise::Plan) -> RunResult {
         for round in 0..4 {
             if round > 0 && expected_complete(&ctx, false) { break; }
             let c = Arc::clone(&ctx);
-            let objs: Vec<Arc<Obj>> = objects.iter().flatten().cloned().collect();
+            // (an object whose job panicked refuses every call: it is not swept)
+            let objs: Vec<Arc<Obj>> = objects.iter().enumerate().filter(|(i, _)| !(ctx.prog.panics && oracle::object_panicked(&ctx, *i))).filter_map(|(_, o)| o.clone()).collect();
             let r = on_helper(native, watchdog, move || {
                 for d in objs.iter() { let _b = c.blocked(NO_OP, PH_SWEEP); d.sync(|_| {}); }
             });
@@ -1018,8 +1029,8 @@ fn diagnose(ctx: &Arc<RunCtx>, objects: &[Option<Arc<Obj>>], snap: &[quiesce::Th
         found.push((pprop, "quiescent_but_incomplete".into(), format!("stuck:unknown:{}", pool_cond(ctx)), format!("all threads quiet but the run is incomplete: {}", incomplete_list(ctx, false))));
     }
     found.sort(); found.dedup();
-    if ctx.prog.panics {
-        // only the C15 scenarios inject panics: whatever got stuck afterwards is damage that was not contained
+    if ctx.prog.panics && ctx.prog.profile == "C15" {
+        // the C15 scenarios inject panics: whatever got stuck afterwards is damage that was not contained
         for f in found.iter_mut() { if f.0 != "C15" { f.2 = format!("{}:{}", f.0, f.2); f.0 = "C15"; } }
     }
     for (prop, kind, sig, detail) in found { ctx.sink.report(prop, &kind, sig, detail); }
